@@ -637,10 +637,24 @@ mod detail {
         ops: &[FlatOp<T>],
         nodes: &[FlatNode<T>],
     ) -> ExprIdxVec {
+        // Applying a commutative operator between two literals early must not be visible. Hence,
+        // the closest operator to its left that is not applied before it anyway has a lower
+        // priority or is the same operator.
+        let is_regroupable = |bin_op_idx: usize| {
+            let op = &ops[bin_op_idx];
+            ops[..bin_op_idx]
+                .iter()
+                .rev()
+                .find(|left| left.bin_op.op.prio <= op.bin_op.op.prio)
+                .map(|left| {
+                    left.bin_op.op.prio < op.bin_op.op.prio || left.bin_op.idx == op.bin_op.idx
+                })
+                .unwrap_or(true)
+        };
         let prio_increase =
             |bin_op_idx: usize| match (&nodes[bin_op_idx].kind, &nodes[bin_op_idx + 1].kind) {
                 (FlatNodeKind::Num(_), FlatNodeKind::Num(_))
-                    if ops[bin_op_idx].bin_op.op.is_commutative =>
+                    if ops[bin_op_idx].bin_op.op.is_commutative && is_regroupable(bin_op_idx) =>
                 {
                     let prio_inc = 5;
                     &ops[bin_op_idx].bin_op.op.prio * 10 + prio_inc
